@@ -760,7 +760,146 @@ func runC14(r *fw.Run) {
 			c14Real(r, cf.tr, cf.listen, r.Pick(15, 250), 4, r.Seed+int64(ci))
 		}
 		r.Note("timing: real sockets %s listen=%v %.1fs", cf.tr, cf.listen, time.Since(tB).Seconds())
+		for k := 0; k < r.Pick(1, 6); k++ {
+			r.Journal(0, map[string]interface{}{"what": "contexts of earlier periods end during a later period", "transport": cf.tr, "listen": cf.listen})
+			c14StaleContext(r, cf.tr, cf.listen, false)
+			c14StaleContext(r, cf.tr, cf.listen, true)
+			r.Done(0)
+		}
 	}
+}
+
+// c14StaleContext: every serve period gets a context of its own; the contexts of periods that are over are ended
+// (cancel, or a deadline that passes) while a later period is serving. What an earlier period left behind must not end
+// the later one: it keeps answering until its own Shutdown, then returns nil.
+func c14StaleContext(r *fw.Run, transport string, useListen bool, byDeadline bool) {
+	cse := map[string]interface{}{"what": "contexts of earlier periods end during a later period", "transport": transport, "listen": useListen, "by_deadline": byDeadline}
+	fail := func(class, format string, a ...interface{}) {
+		r.Violation("C14 "+class, fmt.Sprintf("%s listen=%v: ", transport, useListen)+fmt.Sprintf(format, a...), cse)
+	}
+	svc, err := varlink.NewService("Verif", "Periods", "1", "u")
+	if err != nil {
+		return
+	}
+	var cancels []context.CancelFunc
+	var ctxs []context.Context
+	defer func() {
+		for _, c := range cancels {
+			c()
+		}
+	}()
+	for period := 1; period <= 3; period++ {
+		network, dial := "unix", filepath.Join(r.WorkDir, fmt.Sprintf("sc%d", r.Seq()))
+		addr := "unix:" + dial
+		if transport == "tcp" {
+			network, dial = "tcp", fmt.Sprintf("127.0.0.1:%d", freePort())
+			addr = "tcp:" + dial
+		}
+		ctx, cancel := context.WithCancel(context.Background())
+		if byDeadline {
+			// passes while the NEXT period is serving, and well before that period's own (longer) deadline
+			ctx, cancel = context.WithTimeout(context.Background(), time.Duration(period)*250*time.Millisecond)
+		}
+		cancels = append(cancels, cancel)
+		ctxs = append(ctxs, ctx)
+		started := time.Now()
+		done := make(chan error, 1)
+		if useListen {
+			go func() { done <- svc.Listen(ctx, addr, 0) }()
+		} else {
+			if err := svc.Bind(ctx, addr); err != nil {
+				fail("cannot-bind-again", "period %d: Bind(%s) returned %v", period, addr, err)
+				return
+			}
+			go func() { done <- svc.DoListen(ctx, 0) }()
+		}
+		call := func() error {
+			var last error
+			for try := 0; try < 400; try++ {
+				c, err := net.DialTimeout(network, dial, time.Second)
+				if err == nil {
+					err = roundTrip(c, 5*time.Second)
+					c.Close()
+					if err == nil {
+						return nil
+					}
+				}
+				last = err
+				select {
+				case e := <-done:
+					done <- e
+					return fmt.Errorf("the serving call has returned (%v); last client error: %v", e, last)
+				default:
+				}
+				time.Sleep(500 * time.Microsecond)
+			}
+			return last
+		}
+		if byDeadline && time.Since(started) > 150*time.Millisecond {
+			r.Inconclusive("stale-context: machine too slow to start period %d before its context deadline", period)
+			svc.Shutdown()
+			return
+		}
+		if err := call(); err != nil {
+			if byDeadline && time.Since(started) > 200*time.Millisecond {
+				r.Inconclusive("stale-context: period %d was not serving before its own context deadline: %v", period, err)
+				svc.Shutdown()
+				return
+			}
+			fail("accepted-connection-not-served", "period %d: no round trip: %v", period, err)
+			svc.Shutdown()
+			return
+		}
+		if period > 1 {
+			// end the context of the previous period now, during this one
+			if byDeadline {
+				select {
+				case <-ctxs[period-2].Done():
+				case <-time.After(5 * time.Second):
+				}
+				time.Sleep(30 * time.Millisecond)
+				if ctx.Err() != nil {
+					r.Inconclusive("stale-context: machine too slow, period %d's own context has ended as well", period)
+					svc.Shutdown()
+					return
+				}
+			} else {
+				cancels[period-2]()
+				time.Sleep(30 * time.Millisecond)
+			}
+			select {
+			case e := <-done:
+				fail("period-ended-by-an-earlier-context", "period %d: the serving call returned %v although Shutdown was not called; the context of period %d had just ended", period, e, period-1)
+				return
+			default:
+			}
+			{
+				if err := call(); err != nil {
+					if ctx.Err() != nil {
+						r.Inconclusive("stale-context: period %d's own context ended during the follow-up call", period)
+						svc.Shutdown()
+						return
+					}
+					fail("period-ended-by-an-earlier-context", "period %d: after the context of period %d was cancelled a new client is no longer served: %v", period, period-1, err)
+					svc.Shutdown()
+					return
+				}
+			}
+		}
+		svc.Shutdown()
+		select {
+		case e := <-done:
+			if e != nil {
+				fail("shutdown-returned-error", "period %d: serving call returned %v after Shutdown with no connection open", period, e)
+				return
+			}
+		case <-time.After(20 * time.Second):
+			fail("serve-never-returns", "period %d: serving call did not return within 20 s of Shutdown", period)
+			return
+		}
+	}
+	r.Count("stale_context_runs", 1)
+	r.Case(fw.Hash("stale-context", transport, fmt.Sprint(useListen, byDeadline)), true)
 }
 
 // ---- (B) real-socket epochs, porcupine ---------------------------------------------------------------
@@ -1037,7 +1176,7 @@ func replayC14(r *fw.Run, raw json.RawMessage) {
 func init() {
 	fw.Register(&fw.Engine{
 		ID: "C14", Level: "exploration",
-		Rule: "(A) histories on a controlled net.Listener installed through the white-box accessor, DoListen running on it: every valid prefix over {connect, call, call followed in the same segment by the start of a frame that is never completed, close, abort mid-frame, handler fails, cancel serving context, second Bind, second Listen} up to length 4 (quick) / 7 (thorough), each ended by Shutdown at each of 4 placements - while Accept is parked, inside SetDeadline (before accept), inside Accept just before it returns a connection (between accept and handler start), from another goroutine racing a new connection - plus seeded random histories of length 4..10; connections are in-memory pipes or unix socketpairs. Oracle on event order only: every accepted connection is closed by the service exactly when its end is reached (client close, abort, handler error, context cancel) and counted out (active count 0 at the end); Close was called on the installed listener by the time Shutdown returned; a connection offered after Shutdown returned is never served; the serving call does not return while accepted connections are open, returns nil once they have ended (refuted logically when the loop is parked in Accept on a listener nobody closed), and the same object then binds, serves a call and shuts down again; second Bind/Listen during serving return an error and the first serving call still answers. (B) real unix/TCP sockets, Listen and Bind+DoListen: clients loop dial+GetInfo while a controller cycles serve -> Shutdown (with idle, mid-frame and used connections held across it) -> wait -> serve again on the same address; successful calls, binds and shutdowns are recorded with call/return stamps from one logical clock and checked with porcupine against the model 'ok only while bound'. non-trivial = history with >= 1 step before the shutdown; distinct by hash of the history. Further placements: Shutdown called by a handler while it answers a call; Shutdown before, and racing with, the start of the serving call (60 / 600 runs); every third history re-serves the object a third time through Listen.",
+		Rule: "(A) histories on a controlled net.Listener installed through the white-box accessor, DoListen running on it: every valid prefix over {connect, call, call followed in the same segment by the start of a frame that is never completed, close, abort mid-frame, handler fails, cancel serving context, second Bind, second Listen} up to length 4 (quick) / 7 (thorough), each ended by Shutdown at each of 4 placements - while Accept is parked, inside SetDeadline (before accept), inside Accept just before it returns a connection (between accept and handler start), from another goroutine racing a new connection - plus seeded random histories of length 4..10; connections are in-memory pipes or unix socketpairs. Oracle on event order only: every accepted connection is closed by the service exactly when its end is reached (client close, abort, handler error, context cancel) and counted out (active count 0 at the end); Close was called on the installed listener by the time Shutdown returned; a connection offered after Shutdown returned is never served; the serving call does not return while accepted connections are open, returns nil once they have ended (refuted logically when the loop is parked in Accept on a listener nobody closed), and the same object then binds, serves a call and shuts down again; second Bind/Listen during serving return an error and the first serving call still answers. (B) real unix/TCP sockets, Listen and Bind+DoListen: clients loop dial+GetInfo while a controller cycles serve -> Shutdown (with idle, mid-frame and used connections held across it) -> wait -> serve again on the same address; successful calls, binds and shutdowns are recorded with call/return stamps from one logical clock and checked with porcupine against the model 'ok only while bound'. non-trivial = history with >= 1 step before the shutdown; distinct by hash of the history. Further placements: Shutdown called by a handler while it answers a call; Shutdown before, and racing with, the start of the serving call (60 / 600 runs); every third history re-serves the object a third time through Listen. Three consecutive periods of one object, each with a context of its own; the context of the previous period is cancelled (or its deadline passes) while the next period serves: that period keeps answering until its own Shutdown.",
 		Assumptions: []string{"bounded progress: 10 s for a single step of the accept loop or the release of a connection, 20 s for the serving call to return", "the 8 ms drain grace and the 3 ms late-connection window are one-sided (a violation observed inside them is real; none observed proves nothing beyond them)"},
 		Run:         runC14, Replay: replayC14, CrashIsViolation: true, MinEvals: 100,
 		QuickTimeout: 15 * time.Minute, ThoroughTimeout: 60 * time.Minute,
